@@ -744,4 +744,68 @@ example : (composeSel (.slice 1 5) [1, 3] = .ok (.list [2, 4])) ∧ (composeSel 
     Table.toDicts { columns := [0], data := [(0, [.int 5, .int 6, .int 7, .int 8, .int 9])], sel := .list [2, 4], indexes := [] }
       = .ok [[(0, .int 7)], [(0, .int 9)]] := by decide
 
+
+/-! ## Phase 6: the sort calls of `class Table`, tied to the source -/
+
+/-- **translator obligation**: every `sorted(...)` / in-place `.sort(...)` call inside `class Table` — the method it
+stands in, what it sorts, its `key=`, and whether `reverse=` or anything else is given — as extracted from
+coba/results/core.py by `pre_build` (Python `ast`) into `Generated/C17Sorts.lean` on every run, is the list of
+sorts the model makes (`sortSitesModel`): `insert` (new column names), `_in_index_order` (last index column of
+the new rows), `index` (a segment of row numbers by the cell of the current column), `where` (the row numbers
+of several keywords), `_compare` `in` and `!in` (the probes); all ascending, no other key, none in place. -/
+theorem sort_sites_eq_source :
+    Coba.Generated.C17.sortSitesExtracted = true ∧
+    Coba.Generated.C17.sortSites = sortSitesModel :=
+  sort_sites_eq_source'
+
+/-- at those sites the model calls the ascending `pySorted` / `pySortedBy` with exactly that key — which by
+`sorted_comparison_sort_eq` / `sortedBy_comparison_sort_eq` is the comparison sort with Python's raising `<` -/
+theorem sort_sites_model_calls (cfg : Cfg) (s : Seq) (lo hi : Nat) (vs : List Cell) (c : List Cell)
+    (k : Nat → Cell) (rest : List (Nat × Nat)) (perm : List Nat) :
+    (sortedFrom c lo hi = match pySortedBy (cellAt c) (List.range' lo (hi - lo)) with
+        | .error _ => .cannot
+        | .ok p => if p = List.range' lo (hi - lo) then .le else .gt) ∧
+    (sortSegments k ((lo, hi) :: rest) perm =
+        (pySortedBy k ((perm.drop lo).take (hi - lo))).bind
+          (fun seg => sortSegments k rest (perm.take lo ++ seg ++ perm.drop hi))) ∧
+    (compareBisect cfg s lo hi .isin (.coll vs) =
+        (pySorted vs).bind (fun vs0 =>
+          (if cfg.dedupIn then dedupAdj vs0 else vs0).mapM (fun v => do
+            let l ← myBisectLeft cfg s v lo hi; let h ← myBisectRight cfg s v lo hi; pure (l, h)))) ∧
+    (compareBisect cfg s lo hi .notin (.coll vs) =
+        (pySorted vs).bind (fun vs' =>
+          (notinPairs cfg vs').mapM (fun (p : Option Cell × Option Cell) => do
+            let l ← match p.1 with | Option.none => pure lo | some v0 => myBisectRight cfg s v0 lo hi
+            let h ← match p.2 with | Option.none => pure hi | some v1 => myBisectLeft cfg s v1 lo hi
+            pure (l, h)))) :=
+  sort_sites_model_calls' cfg s lo hi vs c k rest perm
+
+
+/-! ## Phase 6: finding C17-F21 — a `None` cell next to `Missing` cells in an index column -/
+
+/-- `Table(columns=[0,1]).index(0,1).insert([[None,2],[Missing,1]])` -/
+def insertNoneMissing (cfg : Cfg) : Except Err Table :=
+  (({ columns := [0, 1], data := [(0, []), (1, [])], sel := .all, indexes := [] } : Table).index cfg [0, 1]).bind
+    (fun t => t.insert cfg (.rows [[.none, .int 2], [.missing, .int 1]]))
+
+/-- what that table claims as its index, what it shows, and what `where(c=1)` on it returns -/
+def insertNoneMissingObs (cfg : Cfg) : List Nat × Except Err (List (List Cell)) × Except Err (List (List Cell)) :=
+  match insertNoneMissing cfg with
+  | .ok t => (t.indexes, t.rows, rowsOf (t.pwhere cfg Option.none Option.none [(1, .val (.scalar (.int 1)))]))
+  | .error e => ([], .error e, .error e)
+
+/-- **the hypothesis "no `None` in an index column" (`insertOK` / `Indexed`) of `insert_keeps_index_order`,
+`where_reachable_eq_scan` is forced, also in the tree with every repair** (C17-F21): `_in_index_order` judges the new
+rows with `<` only and `None < Missing` is `True` (`MissingType.__gt__`), so the index `(0,1)` is kept with the rows
+`(None,2)`, `(Missing,1)`; `None == Missing` puts both into one group of column 0, inside which column 1 is not
+sorted, and the bisecting `where(c=1)` returns both rows where the plain filter keeps only `(Missing,1)`.
+Replayed on the real code by the known case C17-F21. -/
+theorem insert_none_next_to_missing_counterexample :
+    insertNoneMissingObs Cfg.fixed
+      = ([0, 1], .ok [[.none, .int 2], [.missing, .int 1]], .ok [[.none, .int 2], [.missing, .int 1]]) ∧
+    whereS { columns := [0, 1], rows := [[.none, .int 2], [.missing, .int 1]] }
+      [condOf Option.none (1, .val (.scalar (.int 1)))] = .ok [[.missing, .int 1]] ∧
+    insertOK Cfg.fixed { columns := [0, 1], data := [(0, []), (1, [])], sel := .all, indexes := [0, 1] }
+      (.rows [[.none, .int 2], [.missing, .int 1]]) = false := by decide +kernel
+
 end Coba.C17
